@@ -77,3 +77,526 @@ Proof.
         destruct (N.eqb_spec x p_recv_reorder_v_p); [contradiction|]. reflexivity.
       * intros y Hy. rewrite HO by assumption. vs. destruct (N.eqb_spec y BUF); [contradiction|]. reflexivity.
 Qed.
+
+(* ---- frames ---- *)
+Definition frame (l : list N) (st st' : state) : Prop := forall x, ~ In x l -> V st' x = V st x.
+Lemma frame_setV l st y z x : In y l -> ~ In x l -> V (setV st y z) x = V st x.
+Proof. intros Hy Hx. rewrite V_setV. destruct (N.eqb_spec x y); [subst; contradiction|reflexivity]. Qed.
+Ltac inl := cbn [In]; tauto.
+Ltac fr l := repeat (first [rewrite V_setA | rewrite (frame_setV l) by (first [assumption | unfold l; inl])]).
+
+(* ---- packets as handles ---- *)
+Definition wfp (p : pkt) : Prop := 0 <= pseq p < 65536 /\ 0 <= pid p.
+Definition wfb (b : list (option pkt)) : Prop := forall q x, nnth q b = Some (Some x) -> wfp x.
+Lemma enc_pos p : wfp p -> 1 <= enc p.
+Proof. unfold wfp, enc. lia. Qed.
+Lemma dec_enc p : wfp p -> dec (enc p) = p.
+Proof.
+  unfold wfp, dec, enc. intros [H1 H2]. destruct p as [s i]; cbn [pseq pid] in *. f_equal.
+  - replace (1 + s + 65536 * i - 1) with (s + i * 65536) by lia. rewrite Z.mod_add by lia. apply Z.mod_small. lia.
+  - replace (1 + s + 65536 * i - 1) with (s + i * 65536) by lia. rewrite Z.div_add by lia. rewrite Z.div_small by lia. lia.
+Qed.
+Lemma nth_encs b q : nnth q (map encs b) = option_map encs (nnth q b).
+Proof. apply nnth_map. Qed.
+Lemma wfb_nset b q v : wfb b -> (forall x, v = Some x -> wfp x) -> wfb (nset q v b).
+Proof.
+  intros Hb Hv r x H. destruct (N.eq_dec q r) as [->|Hn].
+  - destruct (N.ltb_spec r (nlen b)).
+    + rewrite nnth_nset_same in H by assumption. injection H as H. auto.
+    + rewrite nnth_ge in H by (rewrite nlen_nset; assumption). discriminate.
+  - rewrite nnth_nset_other in H by assumption. eauto.
+Qed.
+
+(* loop 2: n := 1; for i ... { if buffer[p] != nil { n++ } } *)
+Definition fr2 := [p_recv_reorder_v_i_2; p_recv_reorder_v_p_2; p_recv_reorder_v_tmp_1; p_recv_reorder_v_n].
+Lemma loop2_ok : forall fuel B a i b n n' st,
+  count_loop fuel B a i b n = Some n' ->
+  A st BUF = map encs b -> B = bsize b -> B <= 32768 -> wfb b ->
+  V st p_recv_reorder_v_i_2 = i -> V st vAbs = a -> V st p_recv_reorder_v_n = n ->
+  0 <= i -> i + Z.of_nat (length fuel) = B -> 0 <= n <= i + 1 ->
+  exists st', bs p_recv_reorder_loop2 st (ONormal st') /\
+    (V st' p_recv_reorder_v_n = n' /\ n' <= B + 1 /\ frame fr2 st st' /\ forall y, A st' y = A st y).
+Proof.
+  induction fuel as [|u fuel IH]; intros B a i b n n' st Hc Hb HB HB' Hw Hi Ha Hn Hi0 Hlen Hn0.
+  - cbn in Hc. injection Hc as <-. cbn [length] in Hlen. exists st. split.
+    + apply bs_for_done. cbv beta zeta. rewrite (LEN_buf _ _ Hb), Hi. rewrite w16_small by lia. f_equal. lia.
+    + split; [exact Hn|]. split; [lia|]. split; [intros x _; reflexivity|reflexivity].
+  - cbn [count_loop] in Hc. cbn [length] in Hlen.
+    destruct (nnth (slot B a i) b) as [[x|]|] eqn:Hq; [| |discriminate].
+    + eapply bs_for_step_ex with (Q := fun st' => _).
+      * cbv beta zeta. rewrite (LEN_buf _ _ Hb), Hi. rewrite w16_small by lia. f_equal. lia.
+      * eapply bs_seq_set; [reflexivity|]. eapply bs_seq_load with (z := enc x); [reflexivity| | |].
+        -- vs. apply slot_nonneg.
+        -- vs. rewrite (LEN_buf _ _ Hb), Hi, Ha, <- HB, slot_eq, Hb, nth_encs, Hq. reflexivity.
+        -- eapply bs_if_true.
+           ++ cbv beta zeta. vs. pose proof (enc_pos x (Hw _ _ Hq)). f_equal. lia.
+           ++ apply bs_set1. reflexivity.
+      * apply bs_set1. reflexivity.
+      * eapply (IH B a (i + 1) b (n + 1) n');
+          [eassumption | vs; exact Hb | exact HB | exact HB' | exact Hw | vs; rewrite Hi; apply w16_small; lia
+          | vs; exact Ha | vs; rewrite Hn; apply ki64_small; lia | lia | lia | lia].
+      * cbv beta. intros st' (HN & HN' & HF & HA). split; [exact HN|]. split; [exact HN'|]. split.
+        -- intros y Hy. rewrite HF by exact Hy. fr fr2. reflexivity.
+        -- intros y. rewrite HA. vs. reflexivity.
+    + eapply bs_for_step_ex with (Q := fun st' => _).
+      * cbv beta zeta. rewrite (LEN_buf _ _ Hb), Hi. rewrite w16_small by lia. f_equal. lia.
+      * eapply bs_seq_set; [reflexivity|]. eapply bs_seq_load with (z := 0); [reflexivity| | |].
+        -- vs. apply slot_nonneg.
+        -- vs. rewrite (LEN_buf _ _ Hb), Hi, Ha, <- HB, slot_eq, Hb, nth_encs, Hq. reflexivity.
+        -- eapply bs_if_false.
+           ++ cbv beta zeta. vs. reflexivity.
+           ++ apply bs_skip.
+      * apply bs_set1. reflexivity.
+      * eapply (IH B a (i + 1) b n n');
+          [eassumption | vs; exact Hb | exact HB | exact HB' | exact Hw | vs; rewrite Hi; apply w16_small; lia
+          | vs; exact Ha | vs; exact Hn | lia | lia | lia].
+      * cbv beta. intros st' (HN & HN' & HF & HA). split; [exact HN|]. split; [exact HN'|]. split.
+        -- intros y Hy. rewrite HF by exact Hy. fr fr2. reflexivity.
+        -- intros y. rewrite HA. vs. reflexivity.
+Qed.
+
+Lemma nset_app_exact {X} (l1 : list X) r0 rest v : nset (nlen l1) v (l1 ++ r0 :: rest) = l1 ++ v :: rest.
+Proof.
+  induction l1 as [|x t IH]; cbn [nlen app nset]; [reflexivity|].
+  destruct (N.eqb_spec (N.succ (nlen t)) 0); [lia|]. rewrite N.pred_succ, IH. reflexivity.
+Qed.
+
+Lemma collect_prefix fuel : forall B a i b acc b' acc',
+  collect_loop fuel B a i b acc = Some (b', acc') -> exists suf, acc' = acc ++ suf.
+Proof.
+  induction fuel as [|u fuel IH]; intros B a i b acc b' acc' H; cbn [collect_loop] in H.
+  - injection H as <- <-. exists []. rewrite app_nil_r. reflexivity.
+  - destruct (nnth (slot B a i) b) as [[x|]|]; [| |discriminate].
+    + apply IH in H. destruct H as [suf ->]. exists (x :: suf). rewrite <- app_assoc. reflexivity.
+    + eapply IH; eauto.
+Qed.
+
+(* loop 3: for i ... { if buffer[p] != nil { ret[pos], buffer[p] = buffer[p], nil; pos++ } } *)
+Notation RET := p_recv_reorder_a_ret.
+Definition fr3 := [p_recv_reorder_v_i_3; p_recv_reorder_v_p_3; p_recv_reorder_v_tmp_2; p_recv_reorder_v_tmp_3;
+  p_recv_reorder_v_tmp_4; p_recv_reorder_v_tmp_5; p_recv_reorder_v_tmp_6; p_recv_reorder_v_tmp_7; p_recv_reorder_v_pos].
+Lemma loop3_ok : forall fuel B a i b acc b' acc' rest st,
+  collect_loop fuel B a i b acc = Some (b', acc') ->
+  A st BUF = map encs b -> B = bsize b -> B <= 32768 -> wfb b ->
+  A st RET = map enc acc ++ rest -> (nlen acc' < nlen acc + nlen rest)%N ->
+  V st p_recv_reorder_v_i_3 = i -> V st vAbs = a -> V st p_recv_reorder_v_pos = Z.of_N (nlen acc) ->
+  0 <= i -> i + Z.of_nat (length fuel) = B -> Z.of_N (nlen acc) <= i ->
+  exists st', bs p_recv_reorder_loop3 st (ONormal st') /\
+    (A st' BUF = map encs b' /\ (exists rest', A st' RET = map enc acc' ++ rest' /\ nlen acc' + nlen rest' = nlen acc + nlen rest)%N /\
+     V st' p_recv_reorder_v_pos = Z.of_N (nlen acc') /\ frame fr3 st st' /\
+     forall y, y <> BUF -> y <> RET -> A st' y = A st y).
+Proof.
+  induction fuel as [|u fuel IH]; intros B a i b acc b' acc' rest st Hc Hb HB HB' Hw Hr Hcap Hi Ha Hp Hi0 Hlen Hacc.
+  - cbn in Hc. injection Hc as <- <-. cbn [length] in Hlen. exists st. split.
+    + apply bs_for_done. cbv beta zeta. rewrite (LEN_buf _ _ Hb), Hi. rewrite w16_small by lia. f_equal. lia.
+    + split; [exact Hb|]. split; [exists rest; split; [exact Hr|reflexivity]|]. split; [exact Hp|].
+      split; [intros x _; reflexivity|reflexivity].
+  - cbn [collect_loop] in Hc. cbn [length] in Hlen.
+    destruct (nnth (slot B a i) b) as [[x|]|] eqn:Hq; [| |discriminate].
+    + destruct (collect_prefix _ _ _ _ _ _ _ _ Hc) as [suf Hsuf].
+      assert (Hrest : exists r0 rest0, rest = r0 :: rest0).
+      { destruct rest as [|r0 rest0]; [|eauto]. exfalso. subst acc'. rewrite !nlen_app in Hcap. cbn [nlen] in Hcap. lia. }
+      destruct Hrest as (r0 & rest0 & ->).
+      assert (Hqlt : (slot B a i < nlen b)%N).
+      { destruct (N.ltb_spec (slot B a i) (nlen b)); [assumption|]. rewrite nnth_ge in Hq by assumption. discriminate. }
+      eapply bs_for_step_ex with (Q := fun st' => _).
+      * cbv beta zeta. rewrite (LEN_buf _ _ Hb), Hi. rewrite w16_small by lia. f_equal. lia.
+      * eapply bs_seq_set; [reflexivity|]. eapply bs_seq_load with (z := enc x); [reflexivity| | |].
+        -- vs. apply slot_nonneg.
+        -- vs. rewrite (LEN_buf _ _ Hb), Hi, Ha, <- HB, slot_eq, Hb, nth_encs, Hq. reflexivity.
+        -- eapply bs_if_true.
+           ++ cbv beta zeta. vs. pose proof (enc_pos x (Hw _ _ Hq)). f_equal. lia.
+           ++ eapply bs_seq; [|apply bs_set1; reflexivity].
+              eapply bs_seq_set; [reflexivity|]. eapply bs_seq_set; [reflexivity|].
+              eapply bs_seq_load with (z := enc x); [reflexivity| | |].
+              ** vs. apply slot_nonneg.
+              ** vs. rewrite (LEN_buf _ _ Hb), Hi, Ha, <- HB, slot_eq, Hb, nth_encs, Hq. reflexivity.
+              ** eapply bs_seq_set; [reflexivity|]. eapply bs_seq_set; [reflexivity|].
+                 eapply bs_seq_store; [reflexivity|reflexivity| | |].
+                 --- vs. rewrite Hp. lia.
+                 --- vs. rewrite Hp, Hr, nlen_app, nlen_map. cbn [nlen]. lia.
+                 --- eapply bs_store1; [reflexivity|reflexivity| |].
+                     +++ vs. apply slot_nonneg.
+                     +++ vs. rewrite (LEN_buf _ _ Hb), Hi, Ha, <- HB, slot_eq, Hb, nlen_map. exact Hqlt.
+      * apply bs_set1. reflexivity.
+      * eapply (IH B a (i + 1) (nset (slot B a i) None b) (acc ++ [x]) b' acc' rest0);
+          [eassumption | | | exact HB' | | | | | | | lia | lia | ].
+        -- vs. rewrite (LEN_buf _ _ Hb), Hi, Ha, <- HB, slot_eq, Hb. apply (nset_map encs _ None).
+        -- unfold bsize. rewrite nlen_nset. exact HB.
+        -- apply wfb_nset; [exact Hw|discriminate].
+        -- vs. rewrite Hp, Hr. rewrite N2Z.id. rewrite <- (nlen_map enc acc), nset_app_exact.
+           rewrite map_app, <- app_assoc. reflexivity.
+        -- rewrite nlen_app. cbn [nlen] in *. lia.
+        -- vs. rewrite Hi. apply w16_small. lia.
+        -- vs. exact Ha.
+        -- vs. rewrite Hp, nlen_app. cbn [nlen]. rewrite ki64_small by lia. lia.
+        -- rewrite nlen_app. cbn [nlen]. lia.
+      * cbv beta. intros st' (HA & (rest' & HR & HL) & HP & HF & HO). split; [exact HA|]. split.
+        -- exists rest'. split; [exact HR|]. rewrite nlen_app in HL. cbn [nlen] in *. lia.
+        -- split; [exact HP|]. split.
+           ++ intros y Hy. rewrite HF by exact Hy. fr fr3. reflexivity.
+           ++ intros y Hy1 Hy2. rewrite HO by assumption. vs.
+              destruct (N.eqb_spec y BUF); [contradiction|]. destruct (N.eqb_spec y RET); [contradiction|]. reflexivity.
+    + eapply bs_for_step_ex with (Q := fun st' => _).
+      * cbv beta zeta. rewrite (LEN_buf _ _ Hb), Hi. rewrite w16_small by lia. f_equal. lia.
+      * eapply bs_seq_set; [reflexivity|]. eapply bs_seq_load with (z := 0); [reflexivity| | |].
+        -- vs. apply slot_nonneg.
+        -- vs. rewrite (LEN_buf _ _ Hb), Hi, Ha, <- HB, slot_eq, Hb, nth_encs, Hq. reflexivity.
+        -- eapply bs_if_false; [cbv beta zeta; vs; reflexivity|apply bs_skip].
+      * apply bs_set1. reflexivity.
+      * eapply (IH B a (i + 1) b acc b' acc' rest);
+          [eassumption | vs; exact Hb | exact HB | exact HB' | exact Hw | vs; exact Hr | exact Hcap
+          | vs; rewrite Hi; apply w16_small; lia | vs; exact Ha | vs; exact Hp | lia | lia | lia].
+      * cbv beta. intros st' (HA & HR & HP & HF & HO). split; [exact HA|]. split; [exact HR|]. split; [exact HP|]. split.
+        -- intros y Hy. rewrite HF by exact Hy. fr fr3. reflexivity.
+        -- intros y Hy1 Hy2. rewrite HO by assumption. vs. reflexivity.
+Qed.
+
+(* loop 4: n := uint16(1); for { if buffer[(absPos+n)&mask] == nil { break }; n++ } *)
+Definition fr4 := [p_recv_reorder_v_p_5; p_recv_reorder_v_tmp_9; p_recv_reorder_v_n_2].
+Lemma loop4_ok : forall fuel B a n b n' st,
+  run_len fuel B a n b = RunN n' ->
+  A st BUF = map encs b -> B = bsize b -> wfb b ->
+  V st p_recv_reorder_v_n_2 = n -> V st vAbs = a ->
+  exists st', bs p_recv_reorder_loop4 st (ONormal st') /\
+    (V st' p_recv_reorder_v_n_2 = n' /\ frame fr4 st st' /\ forall y, A st' y = A st y).
+Proof.
+  induction fuel as [|u fuel IH]; intros B a n b n' st Hc Hb HB Hw Hn Ha; cbn [run_len] in Hc; [discriminate|].
+  destruct (nnth (slot B a n) b) as [[x|]|] eqn:Hq; [| |discriminate].
+  - eapply bs_for_step_ex with (Q := fun st' => _).
+    + reflexivity.
+    + eapply bs_seq_set; [reflexivity|]. eapply bs_seq; [|apply bs_set1; reflexivity].
+      eapply bs_seq_load with (z := enc x); [reflexivity| | |].
+      * vs. apply slot_nonneg.
+      * vs. rewrite (LEN_buf _ _ Hb), Hn, Ha, <- HB, slot_eq, Hb, nth_encs, Hq. reflexivity.
+      * eapply bs_if_false; [|apply bs_skip].
+        cbv beta zeta. vs. pose proof (enc_pos x (Hw _ _ Hq)). f_equal. lia.
+    + apply bs_skip.
+    + eapply (IH B a (w16 (n + 1)) b n'); [exact Hc | vs; exact Hb | exact HB | exact Hw | vs; rewrite Hn; reflexivity | vs; exact Ha].
+    + cbv beta. intros st' (HN & HF & HA). split; [exact HN|]. split.
+      * intros y Hy. rewrite HF by exact Hy. fr fr4. reflexivity.
+      * intros y. rewrite HA. vs. reflexivity.
+  - injection Hc as <-. eexists. split.
+    + eapply bs_for_break; [reflexivity|].
+      eapply bs_seq_set; [reflexivity|]. eapply bs_seq_stop; [|discriminate].
+      eapply bs_seq_load with (z := 0); [reflexivity| | |].
+      * vs. apply slot_nonneg.
+      * vs. rewrite (LEN_buf _ _ Hb), Hn, Ha, <- HB, slot_eq, Hb, nth_encs, Hq. reflexivity.
+      * eapply bs_if_true; [cbv beta zeta; vs; reflexivity|apply bs_break].
+    + split; [vs; exact Hn|]. split.
+      * intros y Hy. fr fr4. reflexivity.
+      * intros y. vs. reflexivity.
+Qed.
+
+(* loop 5: for i := uint16(1); i < n; i++ { ret[i], buffer[absPos] = buffer[absPos], nil; absPos++; absPos &= mask } *)
+Notation RET2 := p_recv_reorder_a_ret_2.
+Definition fr5 := [p_recv_reorder_v_i_4; p_recv_reorder_v_tmp_10; p_recv_reorder_v_tmp_11; p_recv_reorder_v_tmp_12;
+  p_recv_reorder_v_tmp_13; p_recv_reorder_v_tmp_14; vAbs].
+Lemma absadv B a : 0 <= a < 65536 ->
+  w16 (Z.land (w16 (a + 1)) (w16 (w16 B - 1))) = slotz B a 1.
+Proof.
+  intros Ha. unfold slotz, mask. apply w16_small. apply Bridge.land_u16; [apply w16_range|].
+  pose proof (w16_range (w16 B - 1)). lia.
+Qed.
+Lemma loop5_ok : forall fuel B i n a b acc a' b' acc' pre rest st,
+  take_loop fuel B i n a b acc = Some (a', b', acc') ->
+  A st BUF = map encs b -> B = bsize b -> wfb b ->
+  A st RET2 = pre :: map enc acc ++ rest -> Z.of_N (nlen (pre :: map enc acc ++ rest)) = n ->
+  V st p_recv_reorder_v_i_4 = i -> V st p_recv_reorder_v_n_2 = n -> V st vAbs = a ->
+  i = 1 + Z.of_N (nlen acc) -> n < 65536 -> 0 <= a < 65536 ->
+  exists st', bs p_recv_reorder_loop5 st (ONormal st') /\
+    (A st' BUF = map encs b' /\ (exists rest', A st' RET2 = pre :: map enc acc' ++ rest' /\
+        Z.of_N (nlen (pre :: map enc acc' ++ rest')) = n) /\
+     V st' vAbs = a' /\ frame fr5 st st' /\ forall y, y <> BUF -> y <> RET2 -> A st' y = A st y).
+Proof.
+  induction fuel as [|u fuel IH]; intros B i n a b acc a' b' acc' pre rest st Hc Hb HB Hw Hr Hrl Hi Hn Ha Hia Hn16 Ha16;
+    cbn [take_loop] in Hc.
+  - destruct (Z.leb_spec n i); [|discriminate]. injection Hc as <- <- <-. exists st. split.
+    + apply bs_for_done. cbv beta zeta. rewrite Hi, Hn. f_equal. lia.
+    + split; [exact Hb|]. split; [exists rest; auto|]. split; [exact Ha|]. split; [intros y _; reflexivity|reflexivity].
+  - destruct (Z.leb_spec n i).
+    + injection Hc as <- <- <-. exists st. split.
+      * apply bs_for_done. cbv beta zeta. rewrite Hi, Hn. f_equal. lia.
+      * split; [exact Hb|]. split; [exists rest; auto|]. split; [exact Ha|]. split; [intros y _; reflexivity|reflexivity].
+    + destruct (nnth (Z.to_N a) b) as [[x|]|] eqn:Hq; try discriminate.
+      assert (Hqlt : (Z.to_N a < nlen b)%N).
+      { destruct (N.ltb_spec (Z.to_N a) (nlen b)); [assumption|]. rewrite nnth_ge in Hq by assumption. discriminate. }
+      assert (Hrest : exists r0 rest0, rest = r0 :: rest0).
+      { destruct rest as [|r0 rest0]; [|eauto]. exfalso. cbn [nlen] in Hrl. rewrite nlen_app, nlen_map in Hrl. cbn [nlen] in Hrl. lia. }
+      destruct Hrest as (r0 & rest0 & ->).
+      eapply bs_for_step_ex with (Q := fun st' => _).
+      * cbv beta zeta. rewrite Hi, Hn. f_equal. lia.
+      * eapply bs_seq.
+        -- eapply bs_seq_set; [reflexivity|]. eapply bs_seq_set; [reflexivity|].
+           eapply bs_seq_load with (z := enc x); [reflexivity| | |].
+           ++ vs. lia.
+           ++ vs. rewrite Ha, Hb, nth_encs, Hq. reflexivity.
+           ++ eapply bs_seq_set; [reflexivity|]. eapply bs_seq_set; [reflexivity|].
+              eapply bs_seq_store; [reflexivity|reflexivity| | |].
+              ** vs. rewrite Hi. lia.
+              ** vs. rewrite Hi, Hr. lia.
+              ** eapply bs_store1; [reflexivity|reflexivity| |].
+                 --- vs. lia.
+                 --- vs. rewrite Ha, Hb, nlen_map. exact Hqlt.
+        -- eapply bs_seq_set; [reflexivity|]. apply bs_set1. reflexivity.
+      * apply bs_set1. reflexivity.
+      * eapply (IH B (i + 1) n (slotz B a 1) (nset (Z.to_N a) None b) (acc ++ [x]) a' b' acc' pre rest0);
+          [exact Hc | | | | | | | | | | exact Hn16 | ].
+        -- vs. rewrite Ha, Hb. apply (nset_map encs _ None).
+        -- unfold bsize. rewrite nlen_nset. exact HB.
+        -- apply wfb_nset; [exact Hw|discriminate].
+        -- vs. rewrite Hi, Hr, Hia.
+           replace (Z.to_N (1 + Z.of_N (nlen acc))) with (nlen (pre :: map enc acc)) by (cbn [nlen]; rewrite nlen_map; lia).
+           change (pre :: map enc acc ++ r0 :: rest0) with ((pre :: map enc acc) ++ r0 :: rest0).
+           rewrite nset_app_exact. cbn [app]. rewrite map_app, <- app_assoc. reflexivity.
+        -- rewrite <- Hrl. repeat (rewrite ?nlen_app, ?nlen_map; cbn [nlen]). lia.
+        -- vs. rewrite Hi. apply w16_small. lia.
+        -- vs. exact Hn.
+        -- vs. rewrite nlen_nset, Hb, nlen_map, Ha. fold (bsize b). rewrite <- HB. apply absadv. exact Ha16.
+        -- rewrite nlen_app. cbn [nlen]. lia.
+        -- unfold slotz. pose proof (w16_range (a + 1)). pose proof (w16_range (w16 B - 1)).
+           unfold mask. apply Bridge.land_u16; lia.
+      * cbv beta. intros st' (HA & (rest' & HR & HL) & HAb & HF & HO). split; [exact HA|]. split; [exists rest'; auto|].
+        split; [exact HAb|]. split.
+        -- intros y Hy. rewrite HF by exact Hy. fr fr5. reflexivity.
+        -- intros y Hy1 Hy2. rewrite HO by assumption. vs.
+           destruct (N.eqb_spec y BUF); [contradiction|]. destruct (N.eqb_spec y RET2); [contradiction|]. reflexivity.
+Qed.
+
+(* ---- the whole function ---- *)
+Lemma relpos_eq s l : ki16 (w16 (w16 (s - l) - 1)) = s16 (w16 (s - l - 1)).
+Proof. unfold ki16. rewrite w16_idem. f_equal. unfold w16. lia. Qed.
+Lemma s16_range' x : -32768 <= s16 (w16 x) < 32768.
+Proof. unfold s16, w16. destruct (Z.ltb_spec (x mod 65536) 32768); lia. Qed.
+
+Lemma run_len_bound fuel : forall B a n b n', run_len fuel B a n b = RunN n' ->
+  0 <= n -> n + Z.of_nat (length fuel) < 65536 -> n <= n' < n + Z.of_nat (length fuel).
+Proof.
+  induction fuel as [|u fuel IH]; intros B a n b n' H Hn Hl; cbn [run_len] in H; [discriminate|].
+  cbn [length] in *. destruct (nnth (slot B a n) b) as [[x|]|]; try discriminate.
+  - rewrite (w16_small (n + 1)) in H by lia. apply IH in H; lia.
+  - injection H as <-. lia.
+Qed.
+Lemma take_loop_len fuel : forall B i n a b acc a' b' acc', take_loop fuel B i n a b acc = Some (a', b', acc') ->
+  i <= n -> Z.of_N (nlen acc') = Z.of_N (nlen acc) + (n - i).
+Proof.
+  induction fuel as [|u fuel IH]; intros B i n a b acc a' b' acc' H Hi; cbn [take_loop] in H.
+  - destruct (Z.leb_spec n i); [|discriminate]. injection H as <- <- <-. lia.
+  - destruct (Z.leb_spec n i).
+    + injection H as <- <- <-. lia.
+    + destruct (nnth (Z.to_N a) b) as [[x|]|]; try discriminate.
+      apply IH in H; [|lia]. rewrite nlen_app in H. cbn [nlen] in H. lia.
+Qed.
+Lemma nrep_cons (x : Z) n : 1 <= n -> exists rest, nrep x (Z.to_N n) = x :: rest /\ Z.of_N (nlen rest) = n - 1.
+Proof.
+  intros H. rewrite nrep_repeat. destruct (N.to_nat (Z.to_N n)) as [|k] eqn:E; [lia|].
+  exists (repeat x k). split; [reflexivity|]. rewrite nlen_repeat. lia.
+Qed.
+Ltac notin := let H := fresh in intro H; vm_compute in H; intuition discriminate.
+
+Notation vRel := p_recv_reorder_v_relPos.
+
+Definition fin (outv : list Z) (l : Z) (b' : list (option pkt)) (a' ng' : Z) (o : outcome) : Prop :=
+  exists st', o = ORet [VA outv; VZ l] st' /\ A st' BUF = map encs b' /\ V st' vAbs = a' /\ V st' vNeg = ng'.
+Ltac nf := let E := fresh in intro E; vm_compute in E; discriminate.
+
+Lemma reorder_prog_fin b a ng lst p b' a' ng' out l k :
+  reorder b a ng lst p = RO b' a' ng' out l k ->
+  bsize b <= 32768 -> wfb b -> wfp p -> 0 <= a < 65536 -> 0 <= ng < 4611686018427387904 -> 0 <= lst < 65536 ->
+  exists o, bs p_recv_reorder (st0 b a ng lst p) o /\ fin (map enc out) l b' a' ng' o.
+Proof.
+  intros HR HB Hw Hp Ha Hng Hl.
+  pose proof (s16_range' (pseq p - lst - 1)) as Hrel.
+  unfold reorder in HR. unfold p_recv_reorder.
+  eapply bs_seq_set_ex; [reflexivity|].
+  set (st1 := setV _ _ _).
+  assert (Hrv : V st1 vRel = s16 (w16 (pseq p - lst - 1))) by (unfold st1; vs; apply relpos_eq).
+  assert (HA1 : A st1 BUF = map encs b) by reflexivity.
+  assert (Hab1 : V st1 vAbs = a) by reflexivity.
+  assert (Hng1 : V st1 vNeg = ng) by reflexivity.
+  assert (Hpk1 : V st1 vPkt = enc p) by reflexivity.
+  clearbody st1.
+  destruct (Z.ltb_spec (s16 (w16 (pseq p - lst - 1))) 0) as [Hneg|Hnn].
+  - (* behind *)
+    eapply bs_seq_if_true_ex; [cbv beta zeta; rewrite Hrv; f_equal; lia|].
+    eapply bs_seq_assoc_ex. eapply bs_seq_set_ex; [reflexivity|].
+    destruct (Z.ltb_spec (bsize b) (ng + 1)) as [Hrs|Hnr].
+    + (* reset *)
+      destruct (clear_loop b (bsize b) a 0 b) as [bc|] eqn:Hcl; [|discriminate]. injection HR as <- <- <- <- <- <-.
+      eapply bs_seq_assoc_ex. eapply bs_seq_if_true_ex.
+      { cbv beta zeta. vs. rewrite (LEN_buf _ _ HA1), Hng1, ki64_small by lia. f_equal. lia. }
+      eapply bs_seq_assoc_ex. eapply bs_seq_set_ex; [reflexivity|].
+      eapply bs_seq_assoc_ex. eapply bs_seq_assoc_ex. eapply bs_seq_set_ex; [reflexivity|].
+      match goal with |- exists o, bs (SSeq _ _) ?s _ /\ _ =>
+        destruct (loop1_ok b (bsize b) a 0 b bc s Hcl) as (st' & Hbs & HA' & HV' & HO');
+          [vs; exact HA1 | reflexivity | exact HB | vs; reflexivity | vs; exact Hab1 | lia
+          | rewrite <- length_nlen; unfold bsize; lia | ]
+      end.
+      eexists. split.
+      * eapply bs_seq; [exact Hbs|]. eapply bs_seq_ret.
+        cbn [eval_rs eval_r eval_list]. cbv beta zeta. rewrite HV' by nf. vs. rewrite Hpk1. reflexivity.
+      * exists st'. split; [reflexivity|]. split; [exact HA'|]. split; rewrite HV' by nf; vs; [exact Hab1|reflexivity].
+    + injection HR as <- <- <- <- <- <-.
+      eapply bs_seq_assoc_ex. eapply bs_seq_if_false_ex.
+      { cbv beta zeta. vs. rewrite (LEN_buf _ _ HA1), Hng1, ki64_small by lia. f_equal. lia. }
+      eexists. split.
+      * eapply bs_seq_skip. eapply bs_seq_ret. reflexivity.
+      * eexists. split; [reflexivity|]. split; [vs; exact HA1|]. split; vs; [exact Hab1|rewrite Hng1; apply ki64_small; lia].
+  - (* at or ahead of the expected position *)
+    eapply bs_seq_if_false_ex; [cbv beta zeta; rewrite Hrv; f_equal; lia|].
+    eapply bs_seq_skip_ex. eapply bs_seq_set_ex; [reflexivity|].
+    destruct (Z.leb_spec (bsize b) (s16 (w16 (pseq p - lst - 1)))) as [Hfl|Hnf].
+    + (* flush *)
+      destruct (count_loop b (bsize b) a 0 b 1) as [n|] eqn:Hcn; [|discriminate].
+      destruct (collect_loop b (bsize b) a 0 b []) as [[bc acc]|] eqn:Hco; [|discriminate].
+      destruct (Z.eqb_spec n (Z.of_N (nlen acc) + 1)) as [Hn|Hn]; [|discriminate].
+      injection HR as <- <- <- <- <- <-.
+      eapply bs_seq_if_true_ex.
+      { cbv beta zeta. vs. rewrite (LEN_buf _ _ HA1), Hrv, ki64_small by lia. rewrite Z.geb_leb. f_equal. lia. }
+      eapply bs_seq_assoc_ex. eapply bs_seq_set_ex; [reflexivity|].
+      eapply bs_seq_assoc_ex. eapply bs_seq_assoc_ex. eapply bs_seq_set_ex; [reflexivity|].
+      match goal with |- exists o, bs (SSeq _ _) ?s _ /\ _ =>
+        destruct (loop2_ok b (bsize b) a 0 b 1 n s Hcn) as (st2 & Hbs2 & HN2 & HNb & HF2 & HO2);
+          [vs; exact HA1 | reflexivity | exact HB | exact Hw | vs; reflexivity | vs; exact Hab1 | vs; reflexivity | lia
+          | rewrite <- length_nlen; unfold bsize; lia | lia | ]
+      end.
+      eapply bs_seq_loop_ex; [exact Hbs2|].
+      eapply bs_seq_assoc_ex. eapply bs_seq_make_ex; [cbv beta zeta; rewrite HN2; reflexivity|lia|].
+      eapply bs_seq_assoc_ex. eapply bs_seq_set_ex; [reflexivity|].
+      eapply bs_seq_assoc_ex. eapply bs_seq_assoc_ex. eapply bs_seq_set_ex; [reflexivity|].
+      match goal with |- exists o, bs (SSeq _ _) ?s _ /\ _ =>
+        destruct (loop3_ok b (bsize b) a 0 b [] bc acc (nrep 0 (Z.to_N n)) s Hco) as (st3 & Hbs3 & HA3 & (rest3 & HR3 & HL3) & HP3 & HF3 & HO3);
+          [vs; rewrite HO2; vs; exact HA1 | reflexivity | exact HB | exact Hw | vs; reflexivity
+          | rewrite nlen_nrep; cbn [nlen]; lia | vs; reflexivity | vs; rewrite HF2 by notin; vs; exact Hab1 | vs; reflexivity | lia
+          | rewrite <- length_nlen; unfold bsize; lia | cbn [nlen]; lia | ]
+      end.
+      rewrite nlen_nrep in HL3. cbn [nlen] in HL3.
+      assert (Hrest3 : exists r0, rest3 = [r0]).
+      { destruct rest3 as [|r0 [|r1 t]]; cbn [nlen] in HL3; [lia|eauto|lia]. }
+      destruct Hrest3 as [r0 ->].
+      eapply bs_seq_loop_ex; [exact Hbs3|].
+      eexists. split.
+      * apply bs_seq_assoc. eapply bs_seq_store; [reflexivity|reflexivity| | |].
+        -- rewrite HP3. lia.
+        -- rewrite HP3, HR3, nlen_app, nlen_map. cbn [nlen]. lia.
+        -- eapply bs_seq_ret. cbn [eval_rs eval_r eval_list]. cbv beta zeta. reflexivity.
+      * eexists. split.
+        -- f_equal. f_equal.
+           ++ f_equal. vs. rewrite HP3, HR3, N2Z.id, <- (nlen_map enc acc), nset_app_exact.
+              rewrite HF3 by notin. vs. rewrite HF2 by notin. vs. rewrite Hpk1, map_app. reflexivity.
+           ++ f_equal. f_equal. vs. rewrite !(HF3 _) by notin. vs. rewrite HN2. rewrite !(HF2 _) by notin. vs.
+              rewrite Hrv. rewrite (ki64_small (s16 _)) by lia. rewrite (ki64_small (_ - n)) by lia.
+              rewrite ki64_small by lia. reflexivity.
+        -- split; [vs; exact HA3|]. split; vs; rewrite HF3 by notin; vs; rewrite HF2 by notin; vs; [exact Hab1|reflexivity].
+    + eapply bs_seq_if_false_ex.
+      { cbv beta zeta. vs. rewrite (LEN_buf _ _ HA1), Hrv, ki64_small by lia. rewrite Z.geb_leb. f_equal. lia. }
+      eapply bs_seq_skip_ex.
+      destruct (Z.eqb_spec (s16 (w16 (pseq p - lst - 1))) 0) as [Hz|Hnz]; cbn [negb] in HR.
+      * (* in order: the run *)
+        destruct (run_len b (bsize b) a 1 b) as [n| |] eqn:Hrl; try discriminate.
+        destruct (take_loop b (bsize b) 1 n (slotz (bsize b) a 1) b []) as [[[at_ bt] acc]|] eqn:Htk; [|discriminate].
+        injection HR as <- <- <- <- <- <-.
+        pose proof (run_len_bound _ _ _ _ _ _ Hrl ltac:(lia) ltac:(rewrite <- length_nlen; unfold bsize in HB; lia)) as Hnb.
+        rewrite <- length_nlen in Hnb. fold (bsize b) in Hnb.
+        eapply bs_seq_if_false_ex; [cbv beta zeta; vs; rewrite Hrv, Hz; reflexivity|].
+        eapply bs_seq_skip_ex. eapply bs_seq_set_ex; [reflexivity|].
+        match goal with |- exists o, bs (SSeq _ _) ?s _ /\ _ =>
+          destruct (loop4_ok b (bsize b) a 1 b n s Hrl) as (st4 & Hbs4 & HN4 & HF4 & HO4);
+            [vs; exact HA1 | reflexivity | exact Hw | vs; reflexivity | vs; exact Hab1 | ]
+        end.
+        assert (HA4 : A st4 BUF = map encs b) by (rewrite HO4; vs; exact HA1).
+        assert (Hab4 : V st4 vAbs = a) by (rewrite HF4 by notin; vs; exact Hab1).
+        assert (Hpk4 : V st4 vPkt = enc p) by (rewrite HF4 by notin; vs; exact Hpk1).
+        assert (Hng4 : V st4 vNeg = 0) by (rewrite HF4 by notin; vs; reflexivity).
+        clear HF4 HO4.
+        eapply bs_seq_loop_ex; [exact Hbs4|].
+        eapply bs_seq_make_ex; [cbv beta zeta; rewrite HN4; reflexivity|lia|].
+        destruct (nrep_cons 0 n ltac:(lia)) as (rest0 & Hrep & Hrl0).
+        eapply bs_seq_store_ex; [reflexivity|reflexivity|lia|vs; rewrite nlen_nrep; lia|].
+        eapply bs_seq_set_ex; [reflexivity|]. eapply bs_seq_set_ex; [reflexivity|].
+        eapply bs_seq_assoc_ex. eapply bs_seq_set_ex; [reflexivity|].
+        match goal with |- exists o, bs (SSeq _ _) ?s _ /\ _ =>
+          destruct (loop5_ok b (bsize b) 1 n (slotz (bsize b) a 1) b [] at_ bt acc (enc p) rest0 s Htk)
+            as (st5 & Hbs5 & HA5 & (rest5 & HR5 & HL5) & HAb5 & HF5 & HO5);
+            [vs; exact HA4 | reflexivity | exact Hw
+            | vs; rewrite Hrep; cbn [nset N.eqb Z.to_N]; rewrite Hpk4; reflexivity
+            | cbn [map app nlen]; lia | vs; reflexivity | vs; exact HN4
+            | vs; rewrite (LEN_buf _ _ HA4), Hab4; apply absadv; exact Ha
+            | reflexivity | lia
+            | unfold slotz, mask; apply Bridge.land_u16; [apply w16_range|pose proof (w16_range (w16 (bsize b) - 1)); lia] | ]
+        end.
+        pose proof (take_loop_len _ _ _ _ _ _ _ _ _ _ Htk ltac:(lia)) as Hlen5. cbn [nlen] in Hlen5.
+        assert (rest5 = []).
+        { destruct rest5 as [|r t]; [reflexivity|]. exfalso. cbn [nlen] in HL5. rewrite nlen_app, nlen_map in HL5. cbn [nlen] in HL5. lia. }
+        subst rest5. rewrite app_nil_r in HR5.
+        eexists. split.
+        -- eapply bs_seq; [exact Hbs5|]. apply bs_ret1. cbn [eval_rs eval_r eval_list]. reflexivity.
+        -- exists st5. split; [rewrite HR5; reflexivity|]. split; [exact HA5|]. split; [exact HAb5|].
+           rewrite HF5 by notin. vs. exact Hng4.
+      * (* ahead: store or duplicate *)
+        eapply bs_seq_if_true_ex; [cbv beta zeta; vs; rewrite Hrv; f_equal; lia|].
+        eapply bs_seq_assoc_ex. eapply bs_seq_set_ex; [reflexivity|].
+        assert (Hsl : forall st, V st vAbs = a -> V st vRel = s16 (w16 (pseq p - lst - 1)) -> LEN st BUF = bsize b ->
+          Z.to_N (w16 (Z.land (w16 (V st vAbs + w16 (V st vRel))) (w16 (w16 (LEN st BUF) - 1)))) =
+          slot (bsize b) a (s16 (w16 (pseq p - lst - 1)))).
+        { intros st E1 E2 E3. rewrite E1, E2, E3. rewrite (w16_small (s16 _)) by lia. apply slot_eq. }
+        destruct (nnth (slot (bsize b) a (s16 (w16 (pseq p - lst - 1)))) b) as [[x|]|] eqn:Hq; [| |discriminate].
+        -- injection HR as <- <- <- <- <- <-.
+           eapply bs_seq_assoc_ex. eapply bs_seq_assoc_ex.
+           eapply bs_seq_load_ex with (z := enc x); [reflexivity|vs; apply w16_range| |].
+           { vs. rewrite Hsl by (vs; auto using LEN_buf). rewrite HA1, nth_encs, Hq. reflexivity. }
+           eapply bs_seq_if_true_ex; [cbv beta zeta; vs; pose proof (enc_pos x (Hw _ _ Hq)); f_equal; lia|].
+           eexists. split; [eapply bs_seq_ret; reflexivity|].
+           eexists. split; [reflexivity|]. split; [vs; exact HA1|]. split; vs; [exact Hab1|reflexivity].
+        -- injection HR as <- <- <- <- <- <-.
+           assert (Hqlt : (slot (bsize b) a (s16 (w16 (pseq p - lst - 1))) < nlen b)%N).
+           { destruct (N.ltb_spec (slot (bsize b) a (s16 (w16 (pseq p - lst - 1)))) (nlen b)); [assumption|].
+             rewrite nnth_ge in Hq by assumption. discriminate. }
+           eapply bs_seq_assoc_ex. eapply bs_seq_assoc_ex.
+           eapply bs_seq_load_ex with (z := 0); [reflexivity|vs; apply w16_range| |].
+           { vs. rewrite Hsl by (vs; auto using LEN_buf). rewrite HA1, nth_encs, Hq. reflexivity. }
+           eapply bs_seq_if_false_ex; [cbv beta zeta; vs; reflexivity|].
+           eapply bs_seq_skip_ex. eapply bs_seq_assoc_ex.
+           eapply bs_seq_store_ex; [reflexivity|reflexivity|vs; apply w16_range| |].
+           { vs. rewrite Hsl by (vs; auto using LEN_buf). rewrite HA1, nlen_map. exact Hqlt. }
+           eexists. split; [eapply bs_seq_ret; reflexivity|].
+           eexists. split; [reflexivity|]. split.
+           ++ vs. rewrite Hsl by (vs; auto using LEN_buf). rewrite HA1, Hpk1. apply (nset_map encs _ (Some p)).
+           ++ split; vs; [exact Hab1|reflexivity].
+Qed.
+
+(* ---- what the interpreter returns, compared with the model's result (the kind is a ghost label of the model) ---- *)
+Definition obs := (list Z * Z * Z * list Z * Z)%type.   (* buffer (handles), absPos, negativeCount, returned packets, lost *)
+Definition ro_enc (r : ro) : option obs :=
+  match r with RO b a ng out l _ => Some (map encs b, a, ng, map enc out, l) | _ => None end.
+Definition out_enc (o : outcome) : option obs :=
+  match o with
+  | ORet [VA out; VZ l] st' => Some (A st' BUF, V st' vAbs, V st' vNeg, out, l)
+  | _ => None
+  end.
+
+Theorem reorder_program_is_the_model b a ng lst p b' a' ng' out l k :
+  reorder b a ng lst p = RO b' a' ng' out l k ->
+  bsize b <= 32768 -> wfb b -> wfp p -> 0 <= a < 65536 -> 0 <= ng < 4611686018427387904 -> 0 <= lst < 65536 ->
+  (exists f0, forall f, (f0 <= f)%nat ->
+     out_enc (exec f p_recv_reorder (st0 b a ng lst p)) = ro_enc (RO b' a' ng' out l k)) /\
+  (forall f, exec f p_recv_reorder (st0 b a ng lst p) = OFuel \/
+     out_enc (exec f p_recv_reorder (st0 b a ng lst p)) = ro_enc (RO b' a' ng' out l k)).
+Proof.
+  intros HR HB Hw Hp Ha Hng Hl.
+  destruct (reorder_prog_fin _ _ _ _ _ _ _ _ _ _ _ HR HB Hw Hp Ha Hng Hl) as (o & Hbs & st' & -> & HA & HV & HN).
+  destruct (bs_runs_to _ _ _ Hbs) as (_ & (f0 & Hf0) & Hall).
+  assert (E : out_enc (ORet [VA (map enc out); VZ l] st') = ro_enc (RO b' a' ng' out l k)).
+  { cbn [out_enc ro_enc]. rewrite HA, HV, HN. reflexivity. }
+  split.
+  - exists f0. intros f Hf. rewrite (Hf0 f Hf). exact E.
+  - intros f. destruct (Hall f _ eq_refl) as [H|H]; [right; rewrite H; exact E|left; exact H].
+Qed.
+
+(* non-vacuity: B = 4, the history 1,3,4 then 2: the packet in order drains the parked ones (loops 4 and 5) *)
+Example reorder_program_example :
+  let b := [None; Some (mkPkt 3 30); Some (mkPkt 4 40); None] in
+  reorder b 0 0 1 (mkPkt 2 20) = RO [None; None; None; None] 3 0 [mkPkt 2 20; mkPkt 3 30; mkPkt 4 40] 0 KRun /\
+  out_enc (exec 100 p_recv_reorder (st0 b 0 0 1 (mkPkt 2 20))) =
+    ro_enc (RO [None; None; None; None] 3 0 [mkPkt 2 20; mkPkt 3 30; mkPkt 4 40] 0 KRun).
+Proof. split; vm_compute; reflexivity. Qed.
